@@ -130,7 +130,7 @@ func (f *File) MatchProg(property, src string, clean bool, class, message string
 }
 
 var (
-	reAtomIDs  = regexp.MustCompile(`"-(\d+)"`)
+	reAtomIDs  = regexp.MustCompile(`"(?:\d+ )?-(\d+)"`)
 	reStatic   = regexp.MustCompile(`y\.Y\(|\bt\.PM\(|\btv\.VM\(|\be\.PM\(|\be\.VM\(|y\.G\[|\bbx\.Get\(|\bbv\.Val\(|\(\*y\.T\)\.PM\(|y\.T\.VM\(|y\.Deep\(|\bly\(|y\.B\(|y\.S\(`)
 	reBlocking = regexp.MustCompile(`\bi\.PM\(|\bi\.VM\(|\bfv\(|\bmv\(|y\.FV\(|y\.Apply\(|\blk\(|\bf\d+\(|func\(\) int`)
 )
